@@ -669,6 +669,13 @@ func (db *DB) Begin(opts ...*sql.TxOptions) *DB {
 		err error
 	)
 
+	// a handle that already carries an error gets no transaction: Transaction and
+	// callers that check tx.Error return without Commit or Rollback, which would
+	// leave the transaction and its connection open
+	if tx.Error != nil {
+		return tx
+	}
+
 	if len(opts) > 0 {
 		opt = opts[0]
 	}
